@@ -1,7 +1,7 @@
 #!/bin/bash
 # tools/seed_collect.sh <PID> : copy /tmp/seedwork/wt-<PID>/seed_out/* to /verif/seeded/<PID>-<name>/
 pid=$1
-for d in /tmp/seedwork/wt-$pid/seed_out/*/; do
+for d in /tmp/seedwork/${2:-wt}-$pid/seed_out/*/; do
   n=$(basename "$d")
   mkdir -p /verif/seeded/$pid-$n
   cp "$d"/patch.diff "$d"/demo.py "$d"/meta.json /verif/seeded/$pid-$n/ 2>/dev/null
